@@ -27,7 +27,11 @@ import vlib, mmlgen, midinotes
 COQ_TARGET = "props/C13.v"
 THEOREMS = ["C13_runs_maximal", "C13_same_pitch_merge", "C13_mode_gate", "C13_mode_alpe", "C13_mode_bend", "C13_bend_value_range12",
             "C13_mode_port", "C13_mode_port_unfold", "C13_mode_port_ramp", "C13_bend_in_range", "C13_clears", "C13_no_double",
-            "C13_frame", "C13_pointer", "C13_group", "C13_flush_at_end"]
+            "C13_frame", "C13_pointer", "C13_group", "C13_flush_at_end",
+            "C13_bend_value_exact", "C13_bend_value_exact_or_close", "C13_bend_from_accuracy", "C13_bend_from_exact",
+            "C13_bend_from_range12", "C13_port_ramp_accuracy", "C13_port_ramp_accuracy_exact", "C13_port_ramp_accuracy_any_len",
+            "C13_port_ramp_ends", "C13_port_ramp_events", "C13_bend_from_quot_refuted", "C13_port_ramp_within1_refuted",
+            "C13_port_ramp_below_line_refuted"]
 DRIVERS = ["core"]
 RULE = ("1..3 tracks, each a sequence of segments: tied groups of 1..6 lettered notes (pitch patterns: all equal / small pool / "
         "neighbours different / octave jumps up to +-3 octaves, own lengths, gates 10..100, velocities; `&` or `&n`, sometimes a rest "
@@ -233,6 +237,22 @@ def gen_program(rng):
     return {"tb": tb, "parts": parts, "explicit_tr": ntr > 1 or rng.random() < 0.3}
 
 
+def gen_long_gate_program(rng):
+    """a group whose early notes carry a gate far above 100 % (their own note-off would fall AFTER the end of the group): in
+    mode 3 every note is held exactly to the end of the group, in modes 0-2 the group is cut as usual.  Pairwise different
+    pitches, so that the untied reference (whose notes overlap) pairs note-ons and note-offs unambiguously; a long rest after
+    the group keeps what follows clear of the overlong reference notes."""
+    names = rng.sample(list("cdefgab"), rng.choice([2, 3, 3, 4, 5]))
+    nlong = rng.randint(1, len(names) - 1)
+    leaves = []
+    for i, nm in enumerate(names):
+        last = i == len(names) - 1
+        suf = ",%d" % rng.choice([150, 200, 300, 400]) if i < nlong else rng.choice(["", "", ",100", ",50"])
+        leaves.append(("note", nm, rng.choice(["4", "8", "", "4"]) if i < nlong else rng.choice(["8", "16", "4", ""]), suf, "" if last else "&", True))
+    items = [("slur", rng.choice([3, 3, 3, 2, 0, 1]), None)] + leaves + [("plain", MARK), ("cmd", "r1"), ("note", rng.choice("cdefgab"), "", "", "", False), ("plain", MARK)]
+    return {"tb": rng.choice([96, 96, 48, 480]), "parts": [(1, items)], "explicit_tr": rng.random() < 0.3}
+
+
 def program_text(p, variant):
     out = []
     if p["tb"] != 96:
@@ -429,7 +449,7 @@ def remove_multiset(big, small):
 # ------------------------------------------------------------------------------------------------------------------
 def structured(ctx, n):
     rng = ctx.rng
-    progs = [gen_program(rng) for _ in range(n)]
+    progs = [gen_program(rng) for _ in range(n - n // 20)] + [gen_long_gate_program(rng) for _ in range(n // 20)]
     srcT = [program_text(p, "T") for p in progs]
     srcU = [program_text(p, "U") for p in progs]
     srcR = [program_text(p, "R") for p in progs]
